@@ -185,9 +185,12 @@ PROPS['C13'] = dict(
          'EVERY operation: every pair that ever compared equal still does; every invocation ever returned can be canonicalised and '
          'compared without panic, canonicalises to a live class with exactly the class slots as keys, idempotently, and is eq to '
          'its canonical form; its slot count never grows; and the progress measure before/after together with the hook event log '
-         'of the operation is judged by the Lean event model (stepOK). non-trivial = some operation logged a shrink or addsym '
-         'event; distinct = by hash of the case line',
-    trusted_base=EG_TRUST + ['event hooks (alloc/merge/shrink/addsym call sites, commit 01d0fa8) are assumed to sit at every place that changes the measure; a missing site shows up as a stepOK failure'],
+         'of the operation is judged by the Lean event model (stepOK). corr.uf.writes (protocol ufw, same runs): the hook logs every '
+         'unionfind_set call; after every operation the Lean write model (Snap.applyWrites: each write must pass validWrite, i.e. be an '
+         'alloc / merge-into-a-leader / shrink-of-a-leader with its guard) advances a model table from the empty table, and every id must '
+         'resolve in the model table exactly as in the dumped table of the implementation (which also went through path compression). '
+         'non-trivial = some operation logged a shrink or addsym event; distinct = by hash of the case line',
+    trusted_base=EG_TRUST + ['event hooks (alloc/merge/shrink/addsym call sites, commit 01d0fa8) are assumed to sit at every place that changes the measure; a missing site shows up as a stepOK failure', 'the write-log hook (commit e7aaaef) sits in unionfind_set, the only writer of the table besides the path-compression write-back (modelled separately, compress_preserves_find); a write that bypassed it shows up as a resolution mismatch'],
     assumptions=COMMON_ASSUME + ['every 9 operations and at the end: Extractor::extract (AstSize) from every handle ever returned; the result must be represented and eq to the handle',
                                  'a rewrite iteration (2-3 pool rules chosen by position) every 11 operations, judged by the same event model'],
 )
